@@ -60,6 +60,16 @@ pub fn generate(rng: &mut Rng, tier: Tier) -> Scn {
             }
             t0.push(LOp::Log { n: i as u16, target: rng.pick(&l::TARGETS).to_string(), level: rng.range(1, 5) as u8 });
         }
+        if nlog == 0 && rng.chance(1, 4) {
+            // single-threaded history: steps whose effect on the facade is judged right away
+            let at = rng.below(t0.len() as u64 + 1) as usize;
+            if init_path < 2 && rng.chance(1, 2) {
+                t0.insert(at, LOp::SetConfig { v: rng.below(nconf as u64) as u32 });
+                t0.insert(at, LOp::Perturb { level: rng.range(0, 5) as u8 });
+            } else {
+                t0.insert(at, LOp::SecondInit { v: rng.below(nconf as u64) as u32 });
+            }
+        }
         threads.push(t0);
         for _ in 0..nlog {
             let k = rng.range(1, 4);
@@ -200,6 +210,20 @@ pub fn execute(scn: &Scn, opts: &ExecOpts) -> Outcome {
                     }
                     match op {
                         LOp::Log { n, target, level } => l::do_log(&sh, RecId { tid, n }, &target, level),
+                        LOp::SecondInit { v } => {
+                            // fresh stubs (tag 9000+v) that must never see a record
+                            let rejected = log4rs::init_config(l::build_config(&configs[v as usize], 9000 + v, &sh));
+                            if rejected.is_ok() {
+                                sh.sink.fail("C02", "C02-E0", "second-init-accepted", "a second initialisation attempt was accepted".into());
+                            }
+                            sh.sink.probe("rejected_second_initialisations", 1);
+                            let cur = *current.lock().unwrap();
+                            check_levels(&sh, &configs[cur as usize], cur, &format!("after a rejected second initialisation attempt (with v{})", v));
+                        }
+                        LOp::Perturb { level } => {
+                            log::set_max_level(l::level_filter(level));
+                            sh.sink.probe("facade_level_perturbed_before_reconfiguration", 1);
+                        }
                         LOp::SetConfig { v } => {
                             if sh.handle.get().is_some() {
                                 l::do_set_config(&sh, v, false);
